@@ -311,6 +311,13 @@ class FortranEngine:
                 self.iterations[t] = iteration
                 solved[i] = False
 
+            # Period is out of bounds, or leaves no room for the lags or leads
+            elif error_code in (11, 12, 13, 14):
+                raise IndexError(
+                    f'index {t} is out of bounds for axis 0 with size {len(self.span)}, '
+                    f'or leaves no room for the lags/leads of the current model instance'
+                )
+
             # Any uncaught errors
             else:
                 raise FortranEngineError(
@@ -391,6 +398,26 @@ class FortranEngine:
         if errors not in self._ERROR_OPTIONS:
             raise ValueError(f'Invalid `errors` argument: {errors}')
 
+        # Error if period `t` cannot accommodate the model's lags or leads (as
+        # in `BaseModel.solve_t()`, before anything is copied or changed)
+        t_check = t
+        if t_check < 0:
+            t_check += len(self.span)
+
+        if 0 <= t_check < self.lags:
+            raise IndexError(
+                f'Position `t` ({t}) leaves too few earlier periods '
+                f'for the lags of the current model instance: '
+                f'position {t_check} < {self.lags} lag(s)'
+            )
+
+        if len(self.span) - self.leads <= t_check < len(self.span):
+            raise IndexError(
+                f'Position `t` ({t}) leaves too few later periods '
+                f'for the leads of the current model instance: '
+                f'position {t_check} >= {len(self.span)} periods in span - {self.leads} lead(s)'
+            )
+
         # Optionally copy initial values from another period
         if offset:
             t_check = t
@@ -464,6 +491,13 @@ class FortranEngine:
 
         elif error_code == 22 and errors == 'skip':
             status = SolutionStatus.SKIPPED.value
+
+        # `t` is out of bounds, or leaves no room for the lags or leads
+        elif error_code in (11, 12, 13, 14):
+            raise IndexError(
+                f'index {t} is out of bounds for axis 0 with size {len(self.span)}, '
+                f'or leaves no room for the lags/leads of the current model instance'
+            )
 
         else:
             raise FortranEngineError(
@@ -893,7 +927,11 @@ subroutine solve(initial_values, indexes,                                       
            return
         end if
 
-     ! Errors: Raise as required
+     ! Indexing errors: Always stop (the Python wrapper raises an `IndexError`)
+     else if(error_code >= index_error_below .and. error_code <= index_error_leads) then
+        return
+
+     ! Other errors: Raise as required
      else if(error_control == error_control_raise) then
         return
      end if
